@@ -76,6 +76,17 @@ CHECKS = {
             "the 'ever' test ignores dates; the lint errs iff the non-IP common name or a DNS name fails at notBefore. table_ok and key uniqueness are re-checked by the kernel on the ~1570-entry table dumped from the running build; "
             "the date parser model is compared with time.Parse on every table string and malformed variants; HasValidTLD is compared at delegation/removal +-1s of every entry under several spellings.",
             "DESIGN.md 5/C18", "strings.ToLower is modelled for ASCII, invalid UTF-8 and the two non-ASCII code points that fold onto ASCII letters; other runes stay non-ASCII (sufficient because keys are ASCII, which is part of table_ok)."),
+    "C06": (True, "Coq meta-theorem over the life cycle + kernel-checked obligation over per-lint status sets regenerated by an SSA translator + observation of every lint on the whole corpus",
+            "Proof (partial): the framework adds only NA/NE/fatal, so a lint whose body statuses are all permitted by its prefix never violates the naming contract, for every object, configuration and entry point (c06_meta); "
+            "the per-lint sets of status constants that can flow into a result are regenerated from go/ssa on every run and the kernel checks 'permitted by the prefix or a listed known finding', that all names carry a prefix, "
+            "and that every status was resolved to a defined constant. Explored, not proved: that the translator over-approximates every return path (every status observed on the corpus must lie in the static set).",
+            "DESIGN.md 5/C06", "The SSA translator (harness/facts.go) is trusted to over-approximate; nine genuine (lint, status) findings are listed in known_findings.txt."),
+    "C15": (True, "Coq theorems over the CLI model (decode dispatch, fail-closed, output = library result, exit status, summary rows) + base64 round-trip theorem + in-Coq correspondence and differential runs of the built binary",
+            "Proof: whatever the tool prints for an input is the marshalled library result plus a newline; PEM/DER/base64 renderings of one certificate give one output (base64 decode-after-encode, also line-wrapped, is a theorem; "
+            "PEM armour, parsers, linter and marshaller are oracles); undecodable/unparseable input and unknown formats produce a failure and no output; exit status 0 iff every input was linted, one output per input in order; "
+            "summary rows are the counts of info/warn/error/fatal among the printed results. Tied to the code by running the binary built from /repo on corpus objects in all encodings, from files and stdin, under six selections, "
+            "with mismatched suffix/format combinations, several files per invocation, undecodable inputs and unknown selectors.",
+            "DESIGN.md 5/C15", "The OS process boundary (exit status, buffering) is observed, not modelled; encoding/pem is an oracle."),
 }
 
 REASON_PENDING = "check not built yet in this session; planned (see DESIGN.md section 5)"
